@@ -72,13 +72,9 @@ Definition opt_eqb {A} (e : A -> A -> bool) (a b : option A) : bool :=
   | _, _ => false
   end.
 
-Definition tgt_eqb (a b : tgt) : bool :=
-  list_eqb String.eqb (t_addresses a) (t_addresses b)
-  && String.eqb (t_request a) (t_request b)
-  && String.eqb (t_other a) (t_other b).
-
-Definition tv_eqb : option tgt -> option tgt -> bool := opt_eqb tgt_eqb.
-Definition rv_eqb : option string -> option string -> bool := opt_eqb String.eqb.
+Definition tgt_eqb : tgt -> tgt -> bool := target_eqb String.eqb.
+Definition tv_eqb : option tgt -> option tgt -> bool := tval_eqb String.eqb.
+Definition rv_eqb : option string -> option string -> bool := rval_eqb String.eqb.
 
 (** remove the first element equal to [x] *)
 Fixpoint remove1 {A} (e : A -> A -> bool) (x : A) (l : list A) : option (list A) :=
@@ -116,8 +112,8 @@ Definition call_eqb (a b : ccall) : bool :=
   | _, _ => false
   end.
 
-Definition entry_eqb (a b : entry string string) : bool :=
-  tv_eqb (fst a) (fst b) && rv_eqb (snd a) (snd b).
+Definition entry_eqb : entry string string -> entry string string -> bool :=
+  entry_eqb String.eqb String.eqb.
 
 Definition ebind_eqb (a b : string * entry string string) : bool :=
   String.eqb (fst a) (fst b) && entry_eqb (snd a) (snd b).
@@ -196,19 +192,7 @@ Definition admissible (st : option cfg) (arg : option cfg) (err : bool) : bool :
 Definition eff_of (st : option cfg) : ceff := effective st.
 
 (** the exact difference between two effective configurations *)
-Definition eff_diff (e1 e2 : ceff) : list ccall :=
-  flat_map (fun ke =>
-              match assoc (fst ke) e2 with
-              | None => [HDelete (fst ke)]
-              | Some e' =>
-                  if entry_eqb (snd ke) e' then []
-                  else [HUpdate (fst ke) (snd e') (fst e')]
-              end) e1
-  ++ flat_map (fun ke =>
-                 match assoc (fst ke) e1 with
-                 | None => [HAdd (fst ke) (snd (snd ke)) (fst (snd ke))]
-                 | Some _ => []
-                 end) e2.
+Definition eff_diff : ceff -> ceff -> list ccall := eff_diff String.eqb String.eqb.
 
 Definition eff_eqb (a b : ceff) : bool := mset_eqb ebind_eqb a b.
 
